@@ -1,6 +1,7 @@
 use crate::report::Report;
 use std::sync::Arc;
 
+pub mod apivar;
 pub mod c01;
 pub mod c02;
 pub mod c03;
